@@ -5,19 +5,26 @@ C14 driver.  One request:
 
   run <flags> <base> <ops>
 
-flags = 6 letters T/F: git, dataByTreePath, execByTreePath, childrenGet, cancelGuarded, loopGuarded
+flags = 10 letters T/F: git, dataByTreePath, execByTreePath, childrenGet, cancelGuarded, loopGuarded,
+        upSkipsIdless, npReleasesId, unversionTolerant, deltaDropsOldId
 base  = entries joined by `;`: `parent|name|kind|data|exec|fid`
         (parent `~` or a number; name `-` = empty; kind f/d/l/~; data token or `-`; exec T/F; fid token or `~`)
 ops   = joined by `;` (`-` = none):
         nf|name|parent|data|fid|exec  nd|name|parent|fid  ns|name|parent|target|fid  dc|t  ap|name|parent|t
         vf|t|fid  uf|t  sx|b|t  cf|data|t  cd|t
 
-reply = `<oplog> <conflicts> <resolution> <preview> <applied> <shadowed> <final>`
+reply = `<oplog> <conflicts> <resolution> <preview> <applied> <shadowed> <final> <apply> <diag>`
   oplog      ok | E:<err>
   conflicts  find_raw_conflicts() before resolution, `,`-joined, `-` = none
-  resolution clean | malformed:<conflicts> | crashed:<err> | -
-  preview / applied / final   entries `path|kind|data|exec|versioned` joined by `;` (`-` = none), data `!` = exception
+  resolution clean | malformed:<conflicts> | crashed:<err>@<conflict being resolved> | -
+  preview / final   entries `path|kind|data|exec|versioned` of the live trans-ids at their final paths,
+             joined by `;` (`-` = none), data `!` = exception
+  applied    the same, enumerated from the applied *disk* (inodes with a directory entry, at the path
+             their directory entries spell) plus, for bzr, inventory entries without a file; `-` unless
+             apply() returned
   shadowed   paths joined by `;`
+  apply      ok | E:<err>:<same|changed> (is the disk left behind the one before?) | -
+  diag       wf=<T|F>,bwf=<T|F>,rev=<ids joined by +>,dang=<ids joined by +>,vbn=<ids joined by +>,ghyp=<T|F>,bhyp=<T|F>,rhyp=<T|F>,fuel=<T|F>
 -/
 namespace BreezyVerif.C14
 
@@ -61,14 +68,16 @@ def parseOp (s : String) : Option Op :=
 
 def parseFlags (s : String) : Option Flags :=
   match s.toList.map (fun c => parseBool (String.singleton c)) with
-  | [some a, some b, some c, some d, some e, some f] =>
-    some { git := a, dataByTreePath := b, execByTreePath := c, childrenGet := d, cancelGuarded := e, loopGuarded := f }
+  | [some a, some b, some c, some d, some e, some f, some g, some h, some i, some j] =>
+    some { git := a, dataByTreePath := b, execByTreePath := c, childrenGet := d, cancelGuarded := e, loopGuarded := f,
+           upSkipsIdless := g, npReleasesId := h, unversionTolerant := i, deltaDropsOldId := j }
   | _ => none
 
 def Err.show : Err → String
   | .duplicateKey => "DuplicateKey" | .cantMoveRoot => "CantMoveRoot" | .keyError => "KeyError"
   | .noFinalPath => "NoFinalPath" | .malformed => "MalformedTransform" | .valueError => "ValueError"
   | .isADirectory => "IsADirectoryError" | .fileExists => "FileExistsError"
+  | .renameFailed => "TransformRenameFailed" | .inconsistentDelta => "InconsistentDelta"
 
 def Conflict.show : Conflict → String
   | .unversionedParent p => s!"up:{p}"
@@ -88,10 +97,41 @@ def semi (l : List String) : String := if l.isEmpty then "-" else ";".intercalat
 
 def showPath (p : List String) : String := if p.isEmpty then "." else "/".intercalate p
 
-def showEntry (p : List String) (k : Option Kind) (d : Option String) (x v : Bool) (unsure : Bool := false) : String :=
+def showEntry (p : List String) (k : Option Kind) (d : Option String) (x v : Bool) : String :=
   let ds := match d with | some d => tok d | none => "!"
-  let vs := if unsure then "?" else showBool v
-  s!"{showPath p}|{showKind k}|{ds}|{showBool x}|{vs}"
+  s!"{showPath p}|{showKind k}|{ds}|{showBool x}|{showBool v}"
+
+/-- the conflict whose resolver raises in `conflict_pass`, with the error -/
+def passDiag (fl : Flags) (tt : TT) : List Conflict → Option (Conflict × Err)
+  | [] => none
+  | c :: cs =>
+    match tt.resolveOne fl c with
+    | .ok tt' => passDiag fl tt' cs
+    | .error e => some (c, e)
+
+/-- mirrors `TT.resolve`: where does the loop crash? -/
+def resolveDiag (fl : Flags) : Nat → TT → Option (Conflict × Err)
+  | 0, _ => none
+  | fuel + 1, tt =>
+    let cs := tt.findRawConflicts fl
+    if cs.isEmpty then none
+    else match tt.conflictPass fl cs with
+      | .ok tt' => resolveDiag fl fuel tt'
+      | .error _ => passDiag fl tt cs
+
+def plusList (l : List Nat) : String := if l.isEmpty then "-" else "+".intercalate (l.map toString)
+
+/-- the applied tree as a dump would find it: walk the disk, then add what only the metadata has -/
+def appliedDump (fl : Flags) (tt : TT) : List String :=
+  let onDisk := tt.appliedPaths.map fun e =>
+    let r := tt.appliedEntry fl e.1 e.2
+    showEntry e.2 r.kind (some r.data) r.exec r.versioned
+  let diskPaths := tt.appliedPaths.map (·.2)
+  let metaOnly : List (List String) :=
+    if fl.git then []
+    else ((tt.appliedInv fl).filterMap fun e => invPath (tt.appliedInv fl) ((tt.appliedInv fl).length + 1) e.1).filter
+      fun p => !p.isEmpty && !diskPaths.contains p
+  onDisk ++ metaOnly.map fun p => showEntry p none (some "") false true
 
 def handle : List String → String
   | ["run", fl, base, ops] =>
@@ -100,22 +140,27 @@ def handle : List String → String
     | some fl, some base, some ops =>
       let tt0 : TT := { base := base, next := base.length }
       match tt0.steps fl ops with
-      | (_, some e) => s!"E:{e.show} - - - - - -"
+      | (_, some e) => s!"E:{e.show} - - - - - - - -"
       | (tt, none) =>
-        if tt.addTreeChildrenRaises fl then "ok E:NoSuchFile - - - - -" else
+        if tt.addTreeChildrenRaises fl then "ok E:NoSuchFile - - - - - - -" else
         let c0 := showConflicts (tt.findRawConflicts fl)
         match tt.resolveConflicts fl with
-        | .malformed cs => s!"ok {c0} malformed:{showConflicts cs} - - - -"
-        | .crashed e => s!"ok {c0} crashed:{e.show} - - - -"
-        | .clean tt =>
-          let lp := tt.livePaths
-          let pv := lp.map fun e => let r := tt.previewEntry fl e.1 e.2; showEntry e.2 r.kind r.data r.exec r.versioned
-          -- git: where the index written by `_generate_index_changes` differs from the versioning the
-          -- `final_*` functions describe the reply says `?` (reported by the oracle, not compared by T2)
-          let ap := lp.map fun e => let r := tt.appliedEntry fl e.1 e.2
-            showEntry e.2 r.kind (some r.data) r.exec r.versioned (fl.git && r.versioned != tt.finalVersioned e.1)
-          let fe := lp.map fun e => let r := tt.finalEntry e.1; showEntry e.2 r.kind (some r.data) r.exec r.versioned
-          s!"ok {c0} clean {semi pv} {semi ap} {semi (tt.shadowed.map showPath)} {semi fe}"
+        | .malformed cs => s!"ok {c0} malformed:{showConflicts cs} - - - - - -"
+        | .crashed e =>
+          let at_ := match resolveDiag fl passCount tt with
+            | some (c, _) => c.show
+            | none => "?"
+          s!"ok {c0} crashed:{e.show}@{at_} - - - - - -"
+        | .clean tt' =>
+          let lp := tt'.livePaths
+          let pv := lp.map fun e => let r := tt'.previewEntry fl e.1 e.2; showEntry e.2 r.kind r.data r.exec r.versioned
+          let fe := lp.map fun e => let r := tt'.finalEntry e.1; showEntry e.2 r.kind (some r.data) r.exec r.versioned
+          let diag := s!"wf={showBool tt'.wf},bwf={showBool tt'.baseWf},rev={plusList tt'.reversioned},dang={plusList tt'.dangling},vbn={plusList tt'.versionedBelowNonDir},ghyp={showBool tt'.gitHyps},bhyp={showBool tt'.bzrHyps},rhyp={showBool tt'.rootHyps},fuel={showBool (tt.fuelOk && tt'.fuelOk)}"
+          -- the outcome of the whole run is taken from `resolveAndApply` on the *original* transform
+          let (ap, out) := match tt.resolveAndApply fl with
+            | .applied tta _ => (semi (appliedDump fl tta), "ok")
+            | .raised e d => ("-", s!"E:{e.show}:{if diskSame d tt.baseDisk then "same" else "changed"}")
+          s!"ok {c0} clean {semi pv} {ap} {semi (tt'.shadowed.map showPath)} {semi fe} {out} {diag}"
     | _, _, _ => "bad-op"
   | _ => "bad-op"
 
